@@ -1200,6 +1200,31 @@ impl<'ast, 'res> Resolver<'ast, 'res> {
         }
     }
 
+    /// True when the static type of `expr` rests on something that can differ by the time the
+    /// expression runs. The recorded type of a variable is the type it holds at one point of
+    /// the text: an assignment or a second declaration further down, a function of the same
+    /// block that runs before the declaration, or an initialiser that is itself a call can give
+    /// the variable another. What a user function returns is typed before its body is checked.
+    fn type_may_change(expr: ExprRef<'ast>) -> bool {
+        match expr {
+            Expr::Var(..) => true,
+            Expr::Binary { lhs, rhs, .. } => {
+                Self::type_may_change(lhs) || Self::type_may_change(rhs)
+            }
+            Expr::Unary { expr, .. } => Self::type_may_change(expr),
+            Expr::Call { callee: Expr::Var(name, ..), .. } => {
+                GlobalBuiltin::from_name(name).is_none()
+            }
+            Expr::Call { callee: Expr::Member { object, .. }, .. } => Self::type_may_change(object),
+            _ => false,
+        }
+    }
+
+    /// The static type of `expr` when it holds wherever and whenever the expression runs.
+    fn settled_expr_type(&self, expr: ExprRef<'ast>) -> Option<ValueType> {
+        if Self::type_may_change(expr) { None } else { self.infer_expr_type(expr) }
+    }
+
     fn classify_expr(&self, expr: ExprRef<'ast>) -> ExprClass {
         match expr {
             Expr::Number(..) | Expr::Bool(..) | Expr::Null(..) | Expr::Var(..) => {
@@ -1219,7 +1244,8 @@ impl<'ast, 'res> Resolver<'ast, 'res> {
                 let class = self.classify_expr(lhs).join(self.classify_expr(rhs));
                 // Division can fail on its divisor. Any operator can end in a runtime type
                 // mismatch unless both operands are known to have one and the same plain type.
-                let operands_fit = match (self.infer_expr_type(lhs), self.infer_expr_type(rhs)) {
+                let operands_fit = match (self.settled_expr_type(lhs), self.settled_expr_type(rhs))
+                {
                     (Some(l), Some(r)) => {
                         l == r
                             && matches!(l, ValueType::Number | ValueType::String | ValueType::Bool)
@@ -1235,7 +1261,7 @@ impl<'ast, 'res> Resolver<'ast, 'res> {
             Expr::Unary { expr, .. } => {
                 let class = self.classify_expr(expr);
                 let operand_fits = matches!(
-                    self.infer_expr_type(expr),
+                    self.settled_expr_type(expr),
                     Some(ValueType::Number | ValueType::Bool | ValueType::Null)
                 );
                 if operand_fits { class } else { class.join(ExprClass::PureMayTrap) }
@@ -1254,7 +1280,7 @@ impl<'ast, 'res> Resolver<'ast, 'res> {
                             // `command` takes a string; anything else is a runtime type mismatch.
                             if matches!(builtin, GlobalBuiltin::Command)
                                 && args.args.first().is_some_and(|arg| {
-                                    self.infer_expr_type(arg) != Some(ValueType::String)
+                                    self.settled_expr_type(arg) != Some(ValueType::String)
                                 })
                             {
                                 class = class.join(ExprClass::PureMayTrap);
@@ -1272,7 +1298,7 @@ impl<'ast, 'res> Resolver<'ast, 'res> {
                         }
                         // Unless the receiver's type is known and has this method, the call can
                         // end in a runtime type mismatch, so it is not trap-free.
-                        let receiver_has_method = match self.infer_expr_type(object) {
+                        let receiver_has_method = match self.settled_expr_type(object) {
                             Some(ValueType::String) => StringBuiltin::from_name(field).is_some(),
                             Some(ValueType::Array) => ArrayBuiltin::from_name(field).is_some(),
                             Some(ValueType::Number) => NumberBuiltin::from_name(field).is_some(),
@@ -1306,7 +1332,7 @@ impl<'ast, 'res> Resolver<'ast, 'res> {
                             && args
                                 .args
                                 .iter()
-                                .any(|arg| self.infer_expr_type(arg) != Some(expected))
+                                .any(|arg| self.settled_expr_type(arg) != Some(expected))
                         {
                             class = class.join(ExprClass::PureMayTrap);
                         }
